@@ -477,6 +477,8 @@ async fn rr_task(
                     let _ = reply.send(r);
                 }
                 Some(RrCmd::Respond(k, payload, reply)) => {
+                    // `usize::MAX` = the newest request not answered yet
+                    let k = if k == usize::MAX { inbound.iter().rposition(|slot| slot.is_some()).unwrap_or(k) } else { k };
                     let r = match inbound.get_mut(k).and_then(|slot| slot.take()) {
                         None => "none".to_string(),
                         Some(id) => {
@@ -1409,7 +1411,8 @@ impl VerifBox for NodeBox {
                 }
             }
             ["respond", i, p, k, len, tag] => {
-                let (Some((_, n)), Some(k), Some(len), Ok(tag)) = (self.node(i), num(k), num(len), tag.parse::<u8>())
+                let newest = if *k == "n" { Some(usize::MAX) } else { None };
+                let (Some((_, n)), Some(k), Some(len), Ok(tag)) = (self.node(i), newest.or_else(|| num(k)), num(len), tag.parse::<u8>())
                 else {
                     return "bad-op".into();
                 };
